@@ -54,7 +54,8 @@ def run(tier, acc):
     acc.violations += shipped(acc)
     res, cs = cc.drive(acc, "ladder", 10 if tier == "quick" else 100, 2, "ladder", ALL)
     acc.violations += cc.records("C02", res, cs, KINDS)
-    acc.nontrivial = sum(v for k, v in acc.counts.items() if k.endswith("_ok"))
+    cc.exhaustive(acc, "C02", tier, ALL)
+    acc.nontrivial += sum(v for k, v in acc.counts.items() if k.endswith("_ok"))
 
 
 def replay(path):
